@@ -58,7 +58,7 @@ class Interp:
         self.ctx = ctx
         self.reg = ctx.reg
         self.globals = module_globals
-        from . import builtins_theory
+        from . import adaptix_theory, builtins_theory  # noqa: F401
         self.handlers = builtins_theory.HANDLERS if handlers is None else handlers
         self.contract_lookup = contract_lookup   # callable(python object or Closure) -> contract or None
         self.loop_specs = loop_specs or {}       # loop ordinal -> LoopSpec
@@ -68,6 +68,7 @@ class Interp:
         self.inline_depth = 0
         self.feas_solver = None
         self.bounded_loops = []                  # loops handled by bounded unrolling (reported as bounded)
+        self.executed = set()                    # repo functions inlined while executing the unit
         self.unroll_bound = 3
 
     # ------------------------------------------------------------------ data roots
@@ -149,7 +150,8 @@ class Interp:
             else:
                 j = z3.Int("j!")
                 st.assume(T.F_len(t) == h.ln)
-                st.assume(z3.ForAll([j], T.F_at(t, j) == z3.Select(h.arr, j), patterns=[T.F_at(t, j)]))
+                st.assume(z3.ForAll([j], T.F_at(t, j) == z3.Select(h.arr, j),
+                                    patterns=[T.F_at(t, j), z3.Select(h.arr, j)]))
         elif isinstance(h, HDict):
             st.assume(T.F_cls(t) == self.reg.cls(dict))
             if h.pairs is not None:
@@ -177,7 +179,7 @@ class Interp:
         # ground theory only (no quantified background axioms): `unsat` here is `unsat` in the full theory, and the
         # solver is not left guessing `unknown` on satisfiable queries
         s.add(*self.reg.stable_ground_facts())
-        s.add(*[f for f in st.pc if not z3.is_quantifier(f)])
+        s.add(*[f for f in st.pc if not T.has_quantifier(f)])
         if extra is not None:
             s.add(extra)
         self.ctx.solver_checks += 1
@@ -208,7 +210,13 @@ class Interp:
                 if h.items is not None:
                     yield st, bool(h.items)
                 else:
-                    yield from self.fork_on(st, h.ln > 0)
+                    for s_, b_ in self.fork_on(st, h.ln > 0):
+                        if b_:
+                            # instantiation hints: make the first / last element available to E-matching
+                            hh = s_.heap[v.d]
+                            s_.assume(T.F_touch(z3.Select(hh.arr, 0)))
+                            s_.assume(T.F_touch(z3.Select(hh.arr, hh.ln - 1)))
+                        yield s_, b_
                 return
             if isinstance(h, HDict):
                 if h.pairs is not None:
@@ -602,7 +610,8 @@ class Interp:
     @staticmethod
     def walk_own(fn):
         """walk a function body without descending into nested function definitions"""
-        todo = list(fn.body) if not isinstance(fn, ast.Lambda) else [fn.body]
+        todo = [n for n in fn.body if not isinstance(n, (ast.FunctionDef, ast.AsyncFunctionDef, ast.ClassDef))] \
+            if not isinstance(fn, ast.Lambda) else [fn.body]
         while todo:
             n = todo.pop()
             yield n
@@ -728,8 +737,9 @@ class Interp:
             else:
                 yield st, ("ok", v)
             return
-        if n in self.globals:
-            yield st, ("ok", const(self.globals[n]))
+        g = st.env.get("$globals") or self.globals
+        if n in g:
+            yield st, ("ok", const(g[n]))
             return
         if hasattr(builtins, n):
             yield st, ("ok", const(getattr(builtins, n)))
@@ -1016,6 +1026,11 @@ class Interp:
             if h is not None:
                 yield from h(self, st, args, kwargs)
                 return
+            rc = self.resolve_repo_callable(o)
+            if rc is not None:
+                clo, selfarg = rc
+                yield from self.call_closure(st, clo, ([selfarg] if selfarg is not None else []) + list(args), kwargs)
+                return
             if isinstance(o, type) and issubclass(o, BaseException):
                 if all(a.kind == "const" for a in args) and not kwargs and False:
                     pass
@@ -1056,6 +1071,46 @@ class Interp:
     def ctx_is_pure_callable(self, o):
         """Only real callables that cannot mutate analysis state may be probed."""
         return callable(o)
+
+    def resolve_repo_callable(self, o):
+        """A python function / bound method defined in /repo's source: returns (Closure over its real AST, self)."""
+        import types
+        from . import extract
+        selfarg = None
+        fn = o
+        if isinstance(o, types.MethodType):
+            fn = o.__func__
+            selfarg = const(o.__self__)
+        if not isinstance(fn, types.FunctionType):
+            return None
+        code = fn.__code__
+        root = extract.SRC_ROOT
+        if not code.co_filename.startswith(root):
+            return None
+        rel = code.co_filename[len(root) + 1:]
+        tree, _, _ = extract.module_ast(rel)
+        best = None
+        for n in ast.walk(tree):
+            if isinstance(n, ast.FunctionDef) and n.name == fn.__name__:
+                first = min([n.lineno] + [d.lineno for d in n.decorator_list])
+                if first == code.co_firstlineno or n.lineno == code.co_firstlineno:
+                    best = n
+                    break
+        if best is None:
+            return None
+        if fn.__closure__:
+            env = {}
+            for nm, cell in zip(code.co_freevars, fn.__closure__):
+                try:
+                    env[nm] = const(cell.cell_contents)
+                except ValueError:
+                    pass
+        else:
+            env = {}
+        env["$globals"] = fn.__globals__
+        is_gen = any(isinstance(x, (ast.Yield, ast.YieldFrom)) for x in self.walk_own(best))
+        self.executed.add((rel, fn.__qualname__, best.lineno))
+        return Closure(best, env, fn.__qualname__, None, is_gen), selfarg
 
     def bind_params(self, st, fn_node, args, kwargs, closure_env):
         """Bind arguments to parameters following python's rules (no *args/**kwargs collection of symbolic length)."""
